@@ -144,16 +144,18 @@ func AppendFloat(b []byte, f float64, prec int) []byte {
 	if prec < 0 || 17 < prec {
 		prec = 17 // maximum number of significant digits in double
 	}
-	exp10 := float64exp(f)
-	if f < math.Pow10(exp10) {
-		exp10-- // the estimate from the binary exponent can be one too high
-	}
-	prec -= exp10 // number of digits in front of the dot
+	digits := prec        // requested number of decimals in scientific notation
+	prec -= float64exp(f) // number of digits in front of the dot
 	if 308 < prec {
 		f *= 1e308 // math.Pow10 is +Inf above 308
 		f *= math.Pow10(prec - 308)
 	} else {
 		f *= math.Pow10(prec)
+	}
+	if f < math.Pow10(digits) {
+		// one digit short: the exponent estimated from the binary exponent can be one too high and the scaling can round down
+		f *= 10.0
+		prec++
 	}
 
 	// calculate mantissa and exponent
